@@ -751,7 +751,9 @@ def client_shape(t: ast.Module) -> dict:
         if not (m and ast.unparse(r.value.func) == "AuthenticationError" and ast.unparse(r.value.args[1]) == "detail"):  # type: ignore[union-attr]
             return rec
         rec["nonEnvelope"] = m
-        rec["recognised"] = bool(rec["fallback"])
+        # the parser reads the body only (no header / extra argument can steer the reason past the closed-set check)
+        rec["params"] = [a.arg for a in fn.args.posonlyargs + fn.args.args + fn.args.kwonlyargs]
+        rec["recognised"] = bool(rec["fallback"]) and rec["params"] == ["content"]
     except ValueError:
         pass
     return rec
@@ -929,6 +931,7 @@ def proofErrorIsPermissionWithProxyRequired : Bool := {b(proof_error_ok)}
 
 /-- `_parse_unauthorized` -/
 def clientRecognised : Bool := {b(cp["recognised"] and auth_reasons_ok)}
+def clientParseParams : List String := {qlist(cp.get("params", []))}
 def clientSuppresses : List String := {qlist(cp["suppresses"])}
 def clientUnknownReason : String := {q(cp["fallback"])}
 def clientNonEnvelopeReason : String := {q(cp.get("nonEnvelope", ""))}
